@@ -7,7 +7,7 @@ theorem interp_refSuiteRunTest (wi tb : Nat) (w : Worker) :
     interp .suite wi tb w refSuiteRunTest {} =
       { segs := (suiteProg wi w).segs, loc := (interp .suite wi tb w refSuiteRunTest {}).loc,
         raised := (suiteProg wi w).died, bad := false } := by
-  cases h1 : (sectionsAbort w.faults {} (testsOps 0 w.tests)).2.2 <;> cases h2 : w.boom <;>
+  cases h1 : (sectionsAbort w.faults {} (workerOps w)).2.2 <;> cases h2 : w.boom <;>
     simp [refSuiteRunTest, interp, doAct, suiteProg, h1, h2]
 
 theorem interp_refStreamRunTest (wi tb : Nat) (w : Worker) :
